@@ -17,3 +17,16 @@ package snapshot
 //@     invariant forall h common.Hash :: visited[h] ==> !has(parent.storageData, h)
 //@   loop 3:
 //@     invariant forall h common.Hash :: has(dl.destructSet, h) && !has(dl.storageData, h) ==> !has(parent.storageData, h)
+
+// A disk layer that was flattened into (stale) answers no read: a reader opened at the old root must
+// not see the values of the newer root through the shared cache.
+//@ func (dl *diskLayer) Storage(accountHash, storageHash common.Hash) (r []byte, err error)
+//@   for C08
+//@   requires dl != nil
+//@   modifies *
+//@   ensures [staleLayerRefuses] old(dl.stale) ==> r == nil && err == ErrSnapshotStale
+//@ func (dl *diskLayer) AccountRLP(hash common.Hash) (r []byte, err error)
+//@   for C08
+//@   requires dl != nil
+//@   modifies *
+//@   ensures [staleLayerRefuses] old(dl.stale) ==> r == nil && err == ErrSnapshotStale
